@@ -188,12 +188,57 @@ let split_ws s = List.filter (fun x -> x <> "") (String.split_on_char ' ' s)
 type hist = {
   hid : string; dbg : bool; ringcap : int; stackcap : int; qcap : int; mutable wall0 : n;
   mutable acts : (action * obs * int * int * string) list; (* action, observed, tb, ta, raw line *)
+  mutable raws : (string list * string * int * int) list; (* tokens, observation text, tb, ta (reverse order) *)
 }
 
 (* oracles are registered by Oracle_glue (name, function over the history with the code's
    observations, returns the list of failing clause names) *)
 let oracles : (string * (sys -> (action * obs) list -> string list)) list ref = ref []
 
+
+
+(* PA t = all pending pushes of thread t; CY = a whole collector cycle (the rest of it when one
+   is in flight): pseudo-actions of hand-written witnesses and of the non-orchestrated streams,
+   expanded against the model state into the primitive scheduled actions *)
+let expand_raws (h : hist) : unit =
+  let s = ref (sys_init h.dbg (n_of_int h.ringcap) (n_of_int h.stackcap) (n_of_int h.qcap)) in
+  let out = ref [] in
+  let emit a o tb ta raw = (let (s', _) = step !s a in s := s'); out := (a, o, tb, ta, raw) :: !out in
+  List.iter (fun (atoks, rhs, tb, ta) ->
+      match atoks with
+      | ["PA"; t] ->
+        let tn = ni t in
+        let guard = ref 0 in
+        let continue = ref true in
+        while !continue && !guard < 100000 do
+          incr guard;
+          (match get_thread !s tn with
+           | Some th when th.th_outbox <> [] || (th.th_chan.ch_dropping && not th.th_chan.ch_abandoned) ->
+             emit (APush tn) ONone tb ta ("P " ^ t)
+           | _ -> continue := false)
+        done
+      | ["CY"] ->
+        let obs = (try parse_obs (split_ws rhs) with Parse _ -> ONone) in
+        let guard = ref 0 in
+        let fin = ref false in
+        if !s.s_pc = PIdle then emit ACBegin ONone tb ta "CB";
+        while not !fin && !guard < 100000 do
+          incr guard;
+          (match !s.s_pc with
+           | PDrain (_, _, _) -> emit ACPop ONone tb ta "CP"
+           | PEmpty (_, _, _) -> emit ACCheck ONone tb ta "CC"
+           | PDrained -> emit ACProcess obs tb ta "CX"; fin := true
+           | PIdle -> fin := true)
+        done
+      | _ ->
+        (try
+           let a = parse_action atoks in
+           let o = parse_obs (split_ws rhs) in
+           emit a o tb ta (String.concat " " atoks)
+         with Parse m ->
+           Printf.printf "DISAGREE %s step=0 action=[%s] code=[parse-error %s] model=[]\n" h.hid (String.concat " " atoks) m))
+    (List.rev h.raws);
+  h.acts <- !out
 
 (* ---- C18: times.  Pairs the model's records (logical ticks) with the code's records (unix
    nanoseconds) of the same report and builds the inputs of the Gallina oracle P_C18. *)
@@ -360,6 +405,7 @@ let main file props =
   let ic = open_in file in
   let cur = ref None in
   let cases = ref 0 and dis = ref 0 and nontriv = ref 0 in
+  let twin_cases = ref 0 and twin_diff = ref 0 in
   let stats = Hashtbl.create 16 in
   let seen = Hashtbl.create 1024 in
   (try
@@ -371,8 +417,15 @@ let main file props =
            (match split_ws line with
             | [_; id; dbg; rc; sc; qc] ->
               cur := Some { hid = id; dbg = (dbg = "1"); ringcap = int_of_string rc; stackcap = int_of_string sc;
-                            qcap = int_of_string qc; wall0 = N0; acts = [] }
+                            qcap = int_of_string qc; wall0 = N0; acts = []; raws = [] }
             | _ -> ())
+         | 'T' ->
+           (* C15: plain vs traced outcome of one twin *)
+           incr twin_cases;
+           if not (Str.string_match (Str.regexp ".* => same$") line 0) then begin
+             incr twin_diff;
+             Printf.printf "ORACLEFAIL twin C15 %s\n" (String.sub line 0 (min 500 (String.length line)))
+           end
          | 'W' ->
            (match !cur, split_ws line with
             | Some h, [_; w] -> h.wall0 <- n_of_dec w
@@ -384,11 +437,7 @@ let main file props =
                | [lhs; rhs] ->
                  (match split_ws lhs with
                   | _ :: tb :: ta :: atoks ->
-                    (try
-                       let a = parse_action atoks in
-                       let o = parse_obs (split_ws rhs) in
-                       h.acts <- (a, o, int_of_string tb, int_of_string ta, String.concat " " atoks) :: h.acts
-                     with Parse m -> Printf.printf "DISAGREE %s step=0 action=[%s] code=[parse-error %s] model=[]\n" h.hid lhs m)
+                    h.raws <- (atoks, rhs, int_of_string tb, int_of_string ta) :: h.raws
                   | _ -> ())
                | _ -> ())
             | None -> ())
@@ -396,6 +445,7 @@ let main file props =
            (match !cur with
             | Some h ->
               incr cases;
+              expand_raws h;
               let d = run_history h props stats in
               if d then incr dis;
               let key = String.concat "|" (List.map (fun (_, _, _, _, r) -> r) h.acts) in
@@ -406,5 +456,6 @@ let main file props =
        end
      done
    with End_of_file -> ());
-  Printf.printf "SUMMARY cases=%d disagreements=%d nontrivial=%d actions=%d\n" !cases !dis !nontriv
+  if !twin_cases > 0 then Printf.printf "TWINS cases=%d different=%d\n" !twin_cases !twin_diff;
+  Printf.printf "SUMMARY cases=%d disagreements=%d nontrivial=%d actions=%d\n" (!cases + !twin_cases) !dis (!nontriv + !twin_cases)
     (try Hashtbl.find stats "actions" with Not_found -> 0)
